@@ -150,6 +150,14 @@ func Spell(d []int, names []string, sp Spelling) string {
 			lines = append(lines, "", " ")
 		case 4: // a run of three
 			lines = append(lines, "", "", "\t")
+		case 5: // white-space-only lines that look like indentation
+			lines = append(lines, "  ")
+		case 6:
+			lines = append(lines, "\t")
+		case 7:
+			lines = append(lines, " ")
+		case 8:
+			lines = append(lines, "    ")
 		}
 	}
 	for i, lv := range d {
